@@ -3,6 +3,7 @@ import Deb822Verif.Lemmas.RelEditFrame
 import Deb822Verif.Lemmas.RelEditBuilt
 import Deb822Verif.Lemmas.RelEditHist
 import Deb822Verif.Lemmas.RelEditHandles
+import Deb822Verif.Lemmas.RelEditOracle
 import Deb822Verif.Props.C10
 /-!
 # C11 — editing relationship fields keeps them well-formed and matches a list model
@@ -559,6 +560,51 @@ theorem C11_handle_reads (f : Field) :
       ∧ (relsOf e)[(e.children.take q).countP (isNodeOf .RELATION)]? = some (recOf r)) :=
   ⟨fun p h => entry_handle_reads f p h, fun p q h => rel_handle_reads f p q h⟩
 
+/-! ### the whole history against the labelled list model (the `rel.hist` oracle)
+
+`LModel` (Lemmas/RelEditOracle.lean) is the reference model of harness/src/reledit.rs: the items of
+the field (`items : FieldS`, every alternative as its record) and, aligned with them, which handle id
+sits on which entry and alternative (`tags : Shape`; handles are taken before the history, so elements
+created by an operation carry no id). `mstep` applies a call to it: the list operation on the items;
+on the ids: setters move none, `insert` / `push` / `replace` / `Entry::push` / `Entry::replace` bring
+unlabelled elements (a replaced element's id is gone), the removals drop the ids with the elements.
+`irun` runs the calls on the tree, addressed by index as the API does. -/
+
+/-- the oracle's theorem. Start from any field with handles that point at entries / relations
+    (`HOk`), `Shaped` (every parsed or built field is), and the model read off it. After any history of
+    calls with well-formed operands that does not panic:
+    * the items of the tree, in order, are the model's items (refinement of the whole history);
+    * the handle ids sit where the model says (`shapeOf f' = M'.tags`), hence
+    * the model element carrying entry id `id` is read by the handle with that id: it is live,
+      `get_entry(i)` finds its node and the node reads the model's entry `i`; likewise every model
+      alternative carrying a relation id;
+    * every live handle still points at a node of its kind, and the tree is still `Shaped`;
+    * dead handles stay dead, with the text they died with. -/
+theorem C11_history_refines (f f' : Field) (os : List IOp) (hs : Shaped f.kids) (hk : HOk f)
+    (ho : ∀ o ∈ os, o.ok) (h : irun f os = .ok f') :
+    let M' := mrun ⟨abs f.root, shapeOf f⟩ os
+    abs f'.root = M'.items
+    ∧ shapeOf f' = M'.tags
+    ∧ (∀ i id rs, Sh.entry? M'.tags i = some (some id, rs) →
+        ∃ p e, (id, ERef.at p) ∈ f'.ehs ∧ nthNode .ENTRY f'.kids i = some p ∧ f'.kids[p]? = some e
+          ∧ S.entry? M'.items i = some (relsOf e))
+    ∧ (∀ i j rid t rs, Sh.entry? M'.tags i = some (t, rs) → rs[j]? = some (some rid) →
+        ∃ p q e r, (rid, RRef.at p q) ∈ f'.rhs ∧ nthNode .ENTRY f'.kids i = some p
+          ∧ nthNode .RELATION (f'.entryKids p) j = some q ∧ f'.kids[p]? = some e ∧ e.children[q]? = some r
+          ∧ (relsOf e)[j]? = some (recOf r))
+    ∧ HOk f' ∧ Shaped f'.kids
+    ∧ (∀ id t, (id, ERef.gone t) ∈ f.ehs → (id, ERef.gone t) ∈ f'.ehs)
+    ∧ (∀ id t, (id, RRef.gone t) ∈ f.rhs → (id, RRef.gone t) ∈ f'.rhs) := by
+  have H0 : HRel f ⟨abs f.root, shapeOf f⟩ := ⟨rfl, rfl, hs, hk⟩
+  have H := hrel_run f f' _ os H0 ho h
+  have hd := dead_irun f f' os h
+  exact ⟨H.items, H.tags, fun i id rs => H.entry_reads i id rs, fun i j rid t rs => H.rel_reads i j rid t rs,
+    H.hok, H.shaped, hd.1, hd.2⟩
+
+/-- one call: the step relation of the oracle (`HRel` is kept by every call that returns) -/
+theorem C11_history_step (f f' : Field) (M : LModel) (o : IOp) (H : HRel f M) (ho : o.ok)
+    (h : istep f o = .ok f') : HRel f' (mstep M o) := hrel_step f f' M o H ho h
+
 /-! ### F-C11-8 (fixed): `Entry::replace` with an operand that carries whitespace -/
 
 /-- `"n ".parse::<Relation>()`: the RELATION node is `IDENT "n", WHITESPACE " "` -/
@@ -632,5 +678,46 @@ def exRs : List (List Lossy.Relation) :=
 example : ValidRSs exRs := by decide +kernel
 example : ∃ f : Field, f.kids = (built exRs).children := ⟨⟨_, [], []⟩, rfl⟩
 example : (built exRs).text = "a (>= 1) | b:any, c".toList := by decide +kernel
+
+
+/-- `C11_history_refines` applies: the built field `a | b, c` with the handles the oracle takes (entry
+    1 with alternatives 2, 3; entry 4 with alternative 5), and a history -/
+def hF : Field :=
+  ⟨(built [[⟨"a".toList, none, none, none, []⟩, ⟨"b".toList, none, none, none, []⟩],
+      [⟨"c".toList, none, none, none, []⟩]]).children,
+    [(1, .at 0), (4, .at 3)], [(2, .at 0 0), (3, .at 0 4), (5, .at 3 0)]⟩
+
+def hOps : List IOp :=
+  [.setArchqual 0 1 "any".toList, .insert 0 exEntry, .removeRelation 1 0, .entryPush 2 exRel, .removeEntry 1]
+
+example : HOk hF := by
+  constructor
+  · intro h hh
+    simp only [hF, List.mem_cons, List.not_mem_nil, or_false] at hh
+    rcases hh with rfl | rfl
+    · exact ⟨_, rfl, rfl⟩
+    · exact ⟨_, rfl, rfl⟩
+  · intro h hh
+    simp only [hF, List.mem_cons, List.not_mem_nil, or_false] at hh
+    rcases hh with rfl | rfl | rfl
+    · exact ⟨_, _, rfl, rfl, rfl, rfl⟩
+    · exact ⟨_, _, rfl, rfl, rfl, rfl⟩
+    · exact ⟨_, _, rfl, rfl, rfl, rfl⟩
+example : Shaped hF.kids := built_shaped _
+example : ∀ o ∈ hOps, o.ok := by
+  intro o ho
+  simp only [hOps, List.mem_cons, List.not_mem_nil, or_false] at ho
+  rcases ho with rfl | rfl | rfl | rfl | rfl
+  · trivial
+  · exact ⟨by decide +kernel, entryShaped_built _⟩
+  · trivial
+  · exact ⟨by decide +kernel, relShape_built _⟩
+  · trivial
+/-- the history runs, and this is where the ids are afterwards: the inserted entry `n` carries none;
+    entry 1 (`a | b:any` → `b:any` after the removal of `a`) is removed at the end; entry 4 keeps its
+    id and its alternative 5, the pushed `n` carries none -/
+example : (irun hF hOps).map (·.root.text) = .ok "n, c | n".toList
+    ∧ (mrun ⟨abs hF.root, shapeOf hF⟩ hOps).tags = [some (none, [none]), some (some 4, [some 5, none])] := by
+  decide +kernel
 
 end Deb822Verif.Props.C11
